@@ -27,6 +27,17 @@ def _norm(e) -> str:
     return vstr(e)
 
 
+def _cdm(repo, ci):
+    """_create_diff_matrix of an operator class; when the 1-D stencil (the dispatch on the boundary condition) has been moved into a private method,
+    the view with that method inlined"""
+    src = ci.lookup("_create_diff_matrix")[1]
+    if any(isinstance(n, ast.Compare) and "bc_type" in unparse(n) for n in ast.walk(src)):
+        return src
+    from .common import canon_fn
+    from ..canon import set_parents
+    return set_parents(canon_fn(repo, ci, src, 2))
+
+
 def _bc_table(fn) -> Dict[str, Dict[str, str]]:
     """bc literal -> {'rows': row-count expression of the 1-D stencil matrix}: for every literal the option is compared with, the paths through
     _create_diff_matrix are followed (tests on the option decided, all others both ways) and the value bound to `Dmat` at the end is read off with
@@ -215,8 +226,8 @@ def run(chk, repo: Repo):
     # R3
     fo = repo.cls(f"{OP}:FirstOrderFiniteDifference")
     so = repo.cls(f"{OP}:SecondOrderFiniteDifference")
-    t1 = _bc_table(repo.method(fo, "_create_diff_matrix")[1])
-    t2 = _bc_table(so.methods["_create_diff_matrix"]) if "_create_diff_matrix" in so.methods else {}
+    t1 = _bc_table(_cdm(repo, fo))
+    t2 = _bc_table(_cdm(repo, so)) if "_create_diff_matrix" in so.methods else {}
     ginit_src = repo.method(gm, "__init__")[1]
     ginit = canon_fn(repo, gm, ginit_src, 2)          # private helpers the constructor is split into (factorisation, node count) are inlined
     gg = CFG(ginit)
@@ -246,7 +257,7 @@ def run(chk, repo: Repo):
         ok = _av(repo, ci, f, "self._diff_op", stop=frozenset({"num_nodes"}), kc=kcf) == [_et("FirstOrderFiniteDifference(num_nodes=num_nodes,bc_type=bc_type)", kcf)]
         chk.add("C20-R3", f"{ci.qual}.__init__", ok, site(repo, f), "bc_type forwarded unchanged to the first-order operator", f"{cls} does not forward bc_type to its operator", f)
     for ci in (fo, so):
-        f = ci.methods["_create_diff_matrix"]
+        f = _cdm(repo, ci)
         ok = any(isinstance(n, ast.Raise) and "Unknownboundarytype" in _norm(n) for n in ast.walk(f))
         chk.add("C20-R3", f"{ci.qual}._create_diff_matrix/refusal", ok, site(repo, f), "unknown boundary type refused", "operator accepts unknown boundary types", f)
     # R4
@@ -370,7 +381,7 @@ def run(chk, repo: Repo):
         chk.add("C20-R5", f"{ci.qual}._create_diff_matrix/2-D", all(v_ == KRON for v_ in two_d), site(repo, cdm), "vstack([kron(I, D), kron(D, I)])",
                 f"the 2-D operator is {two_d}, not the documented Kronecker stacking vstack([kron(I, D), kron(D, I)])", cdm)
     for ci, d in ((fo, "np.vstack([-one_vec,one_vec])"), (so, "np.vstack([-one_vec,2*one_vec,-one_vec])")):
-        f = ci.lookup("_create_diff_matrix")[1] if ci.lookup("_create_diff_matrix") else None
+        f = _cdm(repo, ci) if ci.lookup("_create_diff_matrix") else None
         if f is not None:
             # the value of `diags` with module-level literal stencils folded and comprehensions over them unrolled
             from .common import module_literal_nodes, LiteralUnroll, assigned_values
